@@ -76,6 +76,35 @@ Section Aead.
     rewrite firstn_app_exact. reflexivity.
   Qed.
 
+  (** ** The streamed reader on an envelope the writer produced, of any size *)
+  Lemma read_envelope_from_sealed k a s rest : seal_length_ok -> sealed_shape s ->
+    read_envelope_from key open_ k a (envelope_of s ++ rest) =
+    match open_ k (s_nonce s) a (s_cipher s) with Some p => Some (p, rest) | None => None end.
+  Proof.
+    intros seal_length Hs. pose proof Hs as [Hn Hlen].
+    pose proof (envelope_length s Hs) as Lenv.
+    unfold read_envelope_from.
+    assert (F4 : firstn 4 (envelope_of s ++ rest) = to_le 4 (N.of_nat (nonce_size + length (s_cipher s)))).
+    { unfold envelope_of, encrypt_module. fold (s_cipher s). rewrite <- !app_assoc.
+      apply firstn_app_len. apply to_le_length. }
+    rewrite F4, (of_le_to_le 4 _ Hlen), Nat2N.id, app_length, Lenv.
+    destruct (Nat.ltb_spec (4 + nonce_size + length (s_cipher s) + length rest) 4); [lia|].
+    destruct (Nat.ltb_spec (4 + nonce_size + length (s_cipher s) + length rest)
+                           (4 + (nonce_size + length (s_cipher s)))); [lia|].
+    rewrite (firstn_app_len (4 + (nonce_size + length (s_cipher s))) (envelope_of s) rest) by lia.
+    rewrite (skipn_app_len (4 + (nonce_size + length (s_cipher s))) (envelope_of s) rest) by lia.
+    rewrite <- (app_nil_r (envelope_of s)) at 1.
+    rewrite (decrypt_envelope k a s [] seal_length Hs). reflexivity.
+  Qed.
+
+  (** The length field of an envelope is [len_field] of the plaintext length. *)
+  Lemma envelope_len_field s : seal_length_ok ->
+    envelope_of s = len_field (N.of_nat (length (s_plain s))) ++ s_nonce s ++ s_cipher s.
+  Proof.
+    intros seal_length. unfold envelope_of, encrypt_module, len_field, module_len_of_plain. fold (s_cipher s).
+    unfold s_cipher at 1. rewrite seal_length. do 2 f_equal. lia.
+  Qed.
+
   (** ** What a successful decryption tells about the bytes presented *)
   Lemma decrypt_module_inv k a env p :
     wf_bytes env ->
@@ -136,6 +165,16 @@ Section Aead.
   Proof.
     intros (seal_length & open_seal & auth & shapes) Hs. rewrite <- (app_nil_r (envelope_of s)).
     rewrite decrypt_envelope; [apply open_seal; exact Hs|exact seal_length|apply shapes; exact Hs].
+  Qed.
+
+  (** The same through the streamed reader, whatever follows the module in the
+      stream and whatever the size of the module (below 2^32, [sealed_shape]). *)
+  Theorem stream_roundtrip s rest : aead_ok -> In s sealed ->
+    read_envelope_from key open_ (s_key s) (s_aad s) (envelope_of s ++ rest) = Some (s_plain s, rest).
+  Proof.
+    intros (seal_length & open_seal & auth & shapes) Hs.
+    rewrite read_envelope_from_sealed; [|exact seal_length|apply shapes; exact Hs].
+    now rewrite (open_seal s Hs).
   Qed.
 
   (** Master statement: if ANY byte string decrypts under the AAD of a sealed
@@ -210,6 +249,17 @@ Section Aead.
     apply app_eq_len in Hr; [|congruence]. tauto.
   Qed.
 End Aead.
+
+(** * The streamed reader accepts every length field the writer writes *)
+Lemma stream_accepts_len_field plain_len avail :
+  (module_len_of_plain plain_len < 256 ^ 4)%N -> (module_len_of_plain plain_len <= avail)%N ->
+  stream_accepts (len_field plain_len) avail = true.
+Proof.
+  intros Hlt Hav. unfold stream_accepts, len_field.
+  rewrite (of_le_to_le 4 _ Hlt).
+  apply andb_true_intro. split; [now apply N.leb_le|].
+  apply N.leb_le. unfold module_len_of_plain. rewrite Nat2N.inj_add. lia.
+Qed.
 
 (** * The Seal calls of the writer model have pairwise distinct AADs *)
 Section Entries.
